@@ -86,16 +86,17 @@ Proof. exists 40000000000, 0, 60000000000. vm_compute. repeat split; discriminat
 Lemma range_fresh e n : rangeVisible e n = true <-> (e = 0 \/ n < e).
 Proof. unfold rangeVisible. lia. Qed.
 
-(* a later SetWithTTL moves the deadline to that call's time plus its TTL;
-   a Set without TTL keeps it *)
+(* a later SetWithTTL moves the deadline to that call's time plus its TTL; a Set
+   without TTL keeps a deadline that has not passed yet and clears one that has *)
 Lemma ttl_update old now ttl :
-  0 <= now < 2 ^ 62 -> 0 <= ttl <= maxInt64 ->
-  fst (updateExpire old (setExpire now ttl)) =
-    if ttl =? 0 then old else Z.min maxInt64 (now + ttl).
+  0 <= now < 2 ^ 62 -> 0 <= ttl <= maxInt64 -> 0 <= old ->
+  fst (updateExpire old (setExpire now ttl) now) =
+    if ttl =? 0 then (if negb (old =? 0) && (old <=? now) then 0 else old)
+    else Z.min maxInt64 (now + ttl).
 Proof.
-  intros Hn Ht. unfold updateExpire.
+  intros Hn Ht Ho. unfold updateExpire.
   destruct (Z.eqb_spec ttl 0) as [->|Hne].
-  - reflexivity.
+  - cbn [setExpire Z.eqb Z.ltb Z.compare andb]. destruct (negb (old =? 0) && (old <=? now)); reflexivity.
   - destruct (no_wrap now ttl Hn ltac:(lia)) as [H1 H2]. cbv zeta in *.
     destruct (Z.ltb_spec 0 (setExpire now ttl)); cbn [fst]; lia.
 Qed.
